@@ -1,6 +1,6 @@
 """C20 -- tnetstring serialisation round-trips and the streaming parser agrees with it (server/tnetstrings.py, server/tnet.py)."""
 from vrt import glue
-from vrt.ob import define, obligation
+from vrt.ob import define, obligation, concretize
 import cpppo
 from cpppo.server import tnet, tnetstrings
 
@@ -12,7 +12,7 @@ DRIVES = ['cpppo.server.tnet.tnet_machine (SIZE integer_bytes, DATA dfa repeat=.
 
 
 def feed(stream, cut):
-    cut = cut % (len(stream) + 1)
+    cut = concretize(cut, len(stream) + 1)
     chunks = [stream[cut:]]
     src = cpppo.chainable(stream[:cut])
     data = cpppo.dotdict()
@@ -59,25 +59,34 @@ def do_stream(n, payload, typ, tail, cut):
 
 
 TYPES = {'bytes': 44, 'text': 36, 'int': 35, 'null': 126}
+QUICK_STREAM = {(0, 'null'), (0, 'bytes'), (1, 'int'), (2, 'bytes'), (2, 'other'), (3, 'text'), (2, 'int'), (1, 'null'), (1, 'int_nondigit')}
 for n in (0, 1, 2, 3, 5):
     ps = ['p%d' % i for i in range(n)]
-    for tname, tcode in list(TYPES.items()) + [('other', None)]:
+    for tname, tcode in list(TYPES.items()) + [('other', None), ('int_nondigit', 35)]:
+        if tname in ('int', 'int_nondigit') and n > 2:
+            continue                                   # int() realises the digits: kept to <= 2 digits
+        if tname == 'int_nondigit' and n == 0:
+            continue
         params = ps + (['typ'] if tcode is None else []) + ['t0', 'cut']
         pre = [" and ".join('0 <= %s <= 255' % p for p in ps + ['t0']), '0 <= cut']
         if tcode is None:
-            pre.append('0 <= typ <= 255 and typ not in (44, 36, 35, 126)')
+            pre.append('0 <= typ <= 255 and typ != 44 and typ != 36 and typ != 35 and typ != 126')
         if tname == 'text':
             pre.append(" and ".join('%s < 128' % p for p in ps) or 'True')
+        if tname == 'int':
+            pre.append(" and ".join('48 <= %s <= 57' % p for p in ps) or 'True')
+        if tname == 'int_nondigit':
+            pre.append('(p0 < 48 or p0 > 57)' + (' and 48 <= p1 <= 57' if n > 1 else ''))
         define(globals(), 'C20', 'stream_size%d_%s' % (n, tname), params,
                "return do_stream(%d, [%s], %s, [t0], cut)" % (n, ", ".join(ps), 'typ' if tcode is None else tcode), pre,
-               tier='quick' if (n, tname) in ((0, 'null'), (0, 'bytes'), (1, 'int'), (2, 'bytes'), (2, 'other'), (3, 'text'), (3, 'int'), (1, 'null')) else 'thorough',
+               tier='quick' if (n, tname) in QUICK_STREAM else 'thorough',
                timeout=1800, path_timeout=120, drives=DRIVES,
                symbolic=['p*: %d payload bytes 0..255 (colons, commas, digits and type tags occur inside the payload)' % n,
                          'typ' if tcode is None else 'type %r' % chr(tcode), 't0: following data', 'cut: two-way chunking position'],
                bounds='streaming parser on SIZE=%d ":" DATA TYPE(%s) + 1 following byte, every two-way chunking: supported types extract exactly the '
                       'payload (bytes / ascii text / integer / null), stop exactly at the end of the message and leave the following data; an '
                       'unsupported/invalid type or mismatching content is never reported as a complete message' % (n, tname),
-               outside='payloads longer than 5 bytes; non-ascii text; float/bool/list/dict types (not supported by the streaming parser)')
+               outside='payloads longer than 5 bytes; integers of more than 2 digits; non-ascii text; float/bool/list/dict types (not supported by the streaming parser)')
 
 
 def do_dump_agree(bs, tail, cut):
